@@ -2,7 +2,8 @@
 //   S <op>;<op>;...   scripted engine (no sockets): the harness plays the I/O thread and decides exactly where
 //                     the engine's onConnect / onClose fall relative to the caller's registration, wait,
 //                     timeout, the close it issues with the mutex released, and its return.
-//     B<c>:<w|t>   caller c enters connectSync (w: it is meant to wait, long timeout; t: it will time out)
+//     B<c>:<w|t|e> caller c enters connectSync (w: it is meant to wait, long timeout; t: it will time out; e: the I/O
+//                  thread's onConnect for its id starts while the caller is still inside engine->connect())
 //     A            plain connect()            HC<sid> / HX<sid>   engine onConnect / onClose
 //     W<c>         wait until caller c has returned (its predicate holds)
 //     T<c>         wait until caller c has timed out and is inside engine->close(sid) (mutex released)
@@ -86,11 +87,21 @@ static std::string scripted(const std::vector<std::string> &ops)
   std::atomic<bool> refuse{false};
   tr->onConnect([&](SessionId s, const TransportAddress &) { std::lock_guard<std::mutex> g(m); glog.push_back("GC" + std::to_string(s)); });
   tr->onClose([&](SessionId s, const TransportErrorInfo &) { std::lock_guard<std::mutex> g(m); glog.push_back("GX" + std::to_string(s)); });
+  // B<c>:e - the completion races the registration: the I/O thread's onConnect for the id starts the moment
+  // engine->connect() has handed it out, while the caller is still on its way to registering it (the caller must keep
+  // syncMutex from before engine->connect() until it waits, so that the handler finds the entry)
+  std::atomic<SessionId> eagerFor{0};
+  std::vector<std::thread> eagerThreads;
   eng->connectHook = [&](const std::string &, std::uint16_t, TlsMode) -> ConnectResult
   {
     SessionId sid = eng->nextSid++;
     if (refuse.load()) return ConnectResult::err(TransportErrorInfo{TransportError::ShuttingDown, "refused"});
     elog.add('C', sid);
+    if (eagerFor.load() == sid)
+    {
+      eagerThreads.emplace_back([&, sid] { eng->cbs.onConnect(sid, TransportAddress{}); });
+      std::this_thread::sleep_for(std::chrono::milliseconds(40)); // the handler has every chance to run first
+    }
     return ConnectResult::ok(sid);
   };
   eng->onCloseHook = [&](SessionId sid)
@@ -140,13 +151,15 @@ static std::string scripted(const std::vector<std::string> &ops)
       auto p = split(op.substr(1), ':');
       int c = std::stoi(p[0]);
       bool willTimeout = p.size() > 1 && p[1] == "t";
+      const bool eager = p.size() > 1 && p[1] == "e";
       SessionId expect = eng->nextSid.load();
       bool fenced;
       { std::lock_guard<std::mutex> lk(tr->_impl->syncMutex); fenced = tr->_impl->shuttingDown; }
       auto cl = std::make_unique<Caller>();
       Caller *cp = cl.get();
       if (!fenced && !refuse.load()) cp->sid = expect;
-      auto timeout = std::chrono::milliseconds(willTimeout ? 80 : 20000);
+      if (eager && cp->sid != 0) eagerFor = expect;
+      auto timeout = std::chrono::milliseconds(willTimeout ? 80 : (eager ? 1500 : 20000));
       cp->th = std::thread([&, cp, timeout]
       {
         auto r = tr->connectSync("127.0.0.1", 9, TlsMode::None, timeout);
@@ -155,7 +168,8 @@ static std::string scripted(const std::vector<std::string> &ops)
         cp->returned = true;
       });
       callers[c] = std::move(cl);
-      if (cp->sid != 0) { if (!parked(cp->sid)) hung = true; }
+      if (eager && cp->sid != 0) { if (!waitReturn(*cp)) hung = true; }   // the completion is already on its way
+      else if (cp->sid != 0) { if (!parked(cp->sid)) hung = true; }
       else if (!waitReturn(*cp)) hung = true;
     }
     else if (op == "A") { (void)tr->connect("127.0.0.1", 9, TlsMode::None); }
@@ -239,6 +253,7 @@ static std::string scripted(const std::vector<std::string> &ops)
   }
   { std::lock_guard<std::mutex> g(m); for (auto &kv : callers) released.insert(kv.second->sid); cv.notify_all(); }
   for (auto &kv : callers) if (kv.second->th.joinable()) kv.second->th.join();
+  for (auto &t : eagerThreads) if (t.joinable()) t.join();
   out += "# G=" + gsnap + " # C=" + csnap + " # P=" + psnap;
   if (hung) out += " HUNG";
   if (raced) out += " RACE-SKIP";
